@@ -9,7 +9,9 @@
    the model: a notification in flight is invisible to the detector (DESIGN 14.2) - see DetectorSoundModuloInFlight. *)
 EXTENDS Naturals, Sequences, FiniteSets, TLC
 
-CONSTANTS Family,     \* which workflow
+CONSTANTS Family,     \* which workflow: one of the built-in families, or "custom" = the workflow given by Custom
+          Custom,     \* [steps : sequence of ids, refs : id -> stage -> sequence of nodes, outputs : id -> sequence of nodes]
+                      \* (only read when Family = "custom": trace validation of generated workflows)
           ErrCap, Retries, AllowCancel,
           DeployWaitChecked, \* FALSE = the engine before the repair of DESIGN 14.1 (deploy stage): after a failed non-blocking
                           \* receive the step declares itself waiting without looking whether the input arrived meanwhile
@@ -24,12 +26,14 @@ CONSTANTS Family,     \* which workflow
                           \* channel blocks while the run lock is held; FALSE = the repaired engine drops the error
 
 ASSUME Retries >= 1 /\ ~(SplitHandlers /\ BlockingErrors)
+NoCustom == [steps |-> <<>>, refs |-> <<>>, outputs |-> <<>>]
 Nil == "nil"
 AND == "and"  CAND == "cand"  NONE == "-"
 
 ----------------------------------------------------------------------------
 \* Workflow families (abstract syntax): Steps, references of the starting stage, outputs, outcome model
-Steps == CASE Family = "single" -> {"a"} [] Family = "chain2" -> {"a", "b"} [] Family = "fan2" -> {"a", "b"}
+RangeOf(f) == {f[x] : x \in DOMAIN f}
+Steps == CASE Family = "custom" -> RangeOf(Custom.steps) [] Family = "single" -> {"a"} [] Family = "chain2" -> {"a", "b"} [] Family = "fan2" -> {"a", "b"}
            [] Family = "fan3" -> {"a", "b", "c"} [] Family = "detector" -> {"a", "b"}
 
 St(s, st) == <<"st", s, st>>
@@ -37,24 +41,27 @@ So(s, st, o) == <<"so", s, st, o>>
 Out(id) == <<"out", id>>
 InNode == <<"in">>
 
-StartRefs(s) == CASE Family = "chain2" /\ s = "b" -> {So("a", "outputs", "success")} [] OTHER -> {}
-OutputIds == CASE Family = "detector" -> {"o"} [] Family \in {"fan2", "fan3"} -> {"o"} [] OTHER -> {"o"}
-OutRefs(id) == CASE Family = "single" -> {So("a", "outputs", "success")}
+\* what the expressions of a stage's input refer to (input and wait_for feed the starting stage, deploy feeds deploy)
+StageRefs(s, st) == CASE Family = "custom" -> (IF st \in DOMAIN Custom.refs[s] THEN RangeOf(Custom.refs[s][st]) ELSE {})
+                      [] Family = "chain2" /\ s = "b" /\ st = "starting" -> {So("a", "outputs", "success")} [] OTHER -> {}
+OutputIds == CASE Family = "custom" -> DOMAIN Custom.outputs [] OTHER -> {"o"}
+OutRefs(id) == CASE Family = "custom" -> RangeOf(Custom.outputs[id])
+                 [] Family = "single" -> {So("a", "outputs", "success")}
                  [] Family = "chain2" -> {So("b", "outputs", "success")}
                  [] Family \in {"fan2", "fan3"} -> {So(s, "outputs", "success") : s \in Steps}
                  [] Family = "detector" -> {So("a", "crashed", "error"), So("b", "outputs", "success")}
 \* outcome model: which results the plugin may produce; deployment may fail or not
-Beh(s) == CASE AllOutcomes -> {"success", "error_out", "err", "hang"}
-            [] Family \in {"fan2", "fan3"} /\ s = "a" -> {"error_out"}
+Beh(s) == CASE AllOutcomes -> {"success", "error", "alt", "err", "hang"}
+            [] Family \in {"fan2", "fan3"} /\ s = "a" -> {"error"}
             [] Family \in {"fan2", "fan3"} -> {"success", "hang"}
-            [] OTHER -> {"success", "error_out", "err"}
+            [] OTHER -> {"success", "error", "err"}
 DeployMayFail(s) == AllOutcomes \/ Family \in {"single", "chain2"}
 HasHandler(s) == TRUE
 
 Stages == {"deploy", "deploy_failed", "enabling", "starting", "running", "cancelled", "disabled", "outputs", "crashed", "closed"}
 Declared(st) == CASE st = "deploy_failed" -> {"error"} [] st = "enabling" -> {"resolved"} [] st = "starting" -> {"started"}
                   [] st = "disabled" -> {"output"} [] st = "crashed" -> {"error"} [] st = "closed" -> {"result"}
-                  [] st = "outputs" -> {"success", "error_out", "cancelled_early"} [] OTHER -> {}
+                  [] st = "outputs" -> {"success", "error", "alt", "cancelled_early"} [] OTHER -> {}
 NextStages(a) ==
   CASE a = "deploy"    -> {<<"starting", AND>>, <<"deploy_failed", CAND>>, <<"closed", CAND>>}
     [] a = "enabling"  -> {<<"starting", AND>>, <<"disabled", AND>>, <<"crashed", CAND>>, <<"closed", CAND>>}
@@ -71,7 +78,7 @@ AllNode == {InNode} \cup {St(s, st) : s \in Steps, st \in Stages}
 \* edges <<m, n, t>>: m depends on n
 Edges == UNION {{<<St(s, nx[1]), St(s, a), nx[2]>> : nx \in NextStages(a)} : s \in Steps, a \in Stages}
          \cup UNION {{<<So(s, st, o), St(s, st), AND>> : o \in Declared(st)} : s \in Steps, st \in Stages}
-         \cup UNION {{<<St(s, "starting"), r, AND>> : r \in StartRefs(s)} : s \in Steps}
+         \cup UNION {{<<St(s, st), r, AND>> : r \in StageRefs(s, st)} : s \in Steps, st \in {"deploy", "starting"}}
          \cup UNION {{<<Out(id), r, AND>> : r \in OutRefs(id)} : id \in OutputIds}
 E == {<<e[1], e[2]>> : e \in Edges}
 TypeOf(m, n) == (CHOOSE e \in Edges : e[1] = m /\ e[2] = n)[3]
